@@ -58,8 +58,8 @@ Qed.
 
 Theorem gauge_value i pre v post : forallb (gauge_quiet i) post = true ->
   spec_gauge i (pre ++ GSet i v :: post) = v
-  /\ spec_gauge i (pre ++ GInc i v :: post) = (spec_gauge i pre + v)%Z
-  /\ spec_gauge i (pre ++ GDec i v :: post) = (spec_gauge i pre - v)%Z
+  /\ spec_gauge i (pre ++ GInc i v :: post) = xadd (spec_gauge i pre) v
+  /\ spec_gauge i (pre ++ GDec i v :: post) = xadd (spec_gauge i pre) (xneg v)
   /\ spec_gauge i (pre ++ post) = spec_gauge i pre.
 Proof.
   intros Hq. unfold spec_gauge. rewrite !fold_left_app. cbn [fold_left gauge_step]. rewrite N.eqb_refl.
@@ -111,6 +111,13 @@ Proof.
   - rewrite fold_fadd. reflexivity.
 Qed.
 End SumOnce.
+
+(* the extended numbers (exact finite part + IEEE special values) are such a monoid: sums with +inf, -inf and
+   NaN samples are accounted exactly once as well *)
+Theorem sum_once_xnum ops :
+  let st := fold_left (astep xnum xadd xzero) ops ([], xzero) in
+  xadd (snd st) (fsum xnum xadd xzero (fst st)) = fsum xnum xadd xzero (arecorded xnum ops).
+Proof. apply sum_once; [exact xadd_assoc|exact xadd_comm|exact xadd_zero_l]. Qed.
 
 (* ---- the first description wins *)
 Definition describes (n : str) (o : op) : bool :=
